@@ -28,7 +28,7 @@ def run(ctx):
 
     check_arm_purity(ctx, "E2-A", P, with_mappers(P, fns))
     check_dispatching(ctx, "E2-A", P, [f for f in fns if f.key != "SignCryptCiphertext<C>::create_decryption_share"])
-    check_tag_control_dependence(ctx, "E2-B", P)
+    check_tag_control_dependence(ctx, "E2-B", P, only={g.key for g in with_mappers(P, fns)})
     f = P.fns.get("SignDecryptionShare<C>::verify")
     if f is not None:
         ev = evaluate(f)
